@@ -33,6 +33,10 @@ registry through the modelled read path, and the concurrent clause as ONE theore
 cycles (`c20_concurrent_locked`). For the pinned commit's unlocked member the concurrent clause is REFUTED by a
 kernel-checked witness (`c20_concurrent_refuted`; finding `usecase-lost-update`, recorded as fixed) and PROVED for
 non-overlapping schedules (`c20_concurrent_partial`).
+Deepening round (audit table: `design/audit-C20.md`): isolation as a frame theorem over whole histories and over every
+schedule of the locked cycles (`c20_frame_history`, `c20_frame_concurrent`), no store of a lock holder is lost
+(`c20_no_store_lost`), the wire encoding is injective and self-delimiting (`c20_wire_injective`); regenerated wiring
+of the four operations in `Spine.Props.C20Gen` (`c20_operations_apply_their_helper`, `c20_has_is_read_only`).
 -/
 namespace Spine.Props.C20
 open Spine Spine.UC
